@@ -116,9 +116,19 @@ class Geometry:
                 # In the case, a fixed (scalar) depth had been provided, the base class can be
                 # utilized. Otherwise, a more involved reshape of the effective volume is
                 # required.
+                # NOTE: cv2.INTER_AREA is conservative only if no axis is enlarged
+                # while another one is shrunk. Thus, first shrink, then enlarge.
+                shrunk_shape = [
+                    min(i, j) for i, j in zip(self.voxel_volume.shape, fetched_shape)
+                ]
+                shrunk_voxel_volume = cv2.resize(
+                    self.voxel_volume,
+                    tuple(reversed(shrunk_shape)),
+                    interpolation=cv2.INTER_AREA,  # conservative.
+                )
                 self.cached_voxel_volume = (
                     cv2.resize(
-                        self.voxel_volume,
+                        shrunk_voxel_volume,
                         tuple(reversed(fetched_data.shape[:2])),
                         interpolation=cv2.INTER_AREA,  # conservative.
                     )
